@@ -32,6 +32,7 @@ typedef struct {
   const unsigned char *s; int n;
   const int *seg; int nseg;
   int probe;                    /* console: after the stream, an empty line and then "ok" are typed */
+  int act, k, via;              /* behaviour axis: on its k-th line the user object 1 errors, 2 destructs itself, 3 exec()s away; lines via 0 process_input, 1 input_to, 2 command */
 } plan_t;
 typedef struct {
   unsigned char u[LOGMAX]; int ulen, ucount;
@@ -39,6 +40,7 @@ typedef struct {
   int dropped;                  /* the driver closed the connection by itself */
   int connected;
   int reads, cycles;
+  int gone;                     /* behaviour axis: the user object destructed itself */
   long final_live, final_end;   /* text_end - text_start and text_end when the run was harvested */
 } result_t;
 
@@ -134,9 +136,15 @@ static long recv_hook (env_cli *c, size_t avail_unused, size_t want) {
 
 static void harvest (void) {
   interactive_t *ip = cur_ip ();
-  if (!ip || !ip->ob || (ip->ob->flags & O_DESTRUCTED)) { R->dropped = 1; return; }
-  object_t *ob = ip->ob;
-  R->final_live = (long) (ip->text_end - ip->text_start); R->final_end = (long) ip->text_end;
+  object_t *ob;
+  if (P->act) {                 /* behaviour axis: the log is kept by /c13/logd */
+    ob = find_object_by_name ("/c13/logd");
+    if (!ob) { failp ("C13:harness:no-logd", "log object missing"); return; }
+  } else {
+    if (!ip || !ip->ob || (ip->ob->flags & O_DESTRUCTED)) { R->dropped = 1; return; }
+    ob = ip->ob;
+  }
+  if (ip) { R->final_live = (long) (ip->text_end - ip->text_start); R->final_end = (long) ip->text_end; }
   for (int v = 0; v < 2; v++) {
     svalue_t *sv = &ob->variables[v];
     if (sv->type != T_ARRAY) continue;
@@ -207,6 +215,7 @@ static int wait_hook (io_event_t *ev, int max, struct timeval *tmo) {
     /* fall through */
   case 2:
     ip = cur_ip ();
+    if (!ip && P->act == 2) { harvest (); R->gone = 1; env_shutdown (); ph = 9; return 0; }    /* the user object destructed itself, as scripted */
     if (!ip) { R->dropped = 1; env_shutdown (); ph = 9; return 0; }
     check_inv ("cycle", 0);
     if (R->cycles > 8L * P->n + 4096) {       /* backstop: a correct driver consumes at least one byte or one command per cycle */
@@ -229,6 +238,7 @@ static int wait_hook (io_event_t *ev, int max, struct timeval *tmo) {
   case 3:
   drain:
     ip = cur_ip ();
+    if (!ip && P->act == 2) { harvest (); R->gone = 1; env_shutdown (); ph = 9; return 0; }
     if (!ip) { R->dropped = 1; env_shutdown (); ph = 9; return 0; }
     check_inv ("drain", 0);
     if (P->port == PT_CONSOLE && env_posted_completions && R->cycles < 200000) { env_posted_completions = 0; return env_ev_console (ev, 0); }
@@ -258,17 +268,33 @@ static int wait_hook (io_event_t *ev, int max, struct timeval *tmo) {
   }
 }
 
+static void set_pol_n (const char *k, long v) { push_constant_string (k); push_number (v); safe_apply_master_ob ("set_policy", 2); }
+static void set_behaviour (plan_t *p) {
+  static int cur_act = -1, cur_k = -1, cur_via = -1;
+  if ((p->act != 0) != (cur_act > 0) || cur_act < 0) {
+    push_constant_string ("user_file"); push_constant_string (p->act ? "/c13/buser.c" : "/c13/user.c");
+    safe_apply_master_ob ("set_policy", 2);
+  }
+  if (p->act != cur_act) { set_pol_n ("c13_act", p->act); cur_act = p->act; }
+  if (p->k != cur_k) { set_pol_n ("c13_k", p->k); cur_k = p->k; }
+  if (p->via != cur_via) { set_pol_n ("c13_via", p->via); cur_via = p->via; }
+  if (p->act) {
+    object_t *ld = find_object_by_name ("/c13/logd");
+    if (ld) hx_apply (ld, "reset_log", 0);
+  }
+}
 static void do_remove (void *a) { remove_interactive ((object_t *) a, 0); }
 
 static void run (plan_t *p, result_t *r) {
   P = p; R = r;
-  r->ulen = r->ucount = r->glen = r->gcount = r->dropped = r->connected = r->reads = r->cycles = 0;
+  r->ulen = r->ucount = r->glen = r->gcount = r->dropped = r->connected = r->reads = r->cycles = r->gone = 0;
   ph = 0; C = 0;
   g_proceeding_shutdown = 0;
   MAIN_OPTION (console_mode) = p->port == PT_CONSOLE;
   env_console_capture = 1; env_console_out_len = 0; env_posted_completions = 0;
   env_wait_hook = wait_hook; env_recv_hook = recv_hook;
   n_runs++;
+  set_behaviour (p);
   backend ();
   /* leave the world as we found it */
   if (p->port == PT_CONSOLE && all_users && all_users[0]) hx_guard (do_remove, all_users[0]->ob);
@@ -293,6 +319,7 @@ static unsigned char sym_byte (int s, int pos) {
   }
 }
 static int Lmax = 4, nalpha = NSYM, port = PT_TELNET, single;
+static const int alpha4[4] = { S_a, S_b, S_CR, S_LF };
 static const int alpha8[8] = { S_a, S_CR, S_LF, S_BS, S_IAC, S_SB, S_SE, S_OPT };
 static const int alpha10[10] = { S_a, S_CR, S_LF, S_NUL, S_BS, S_IAC, S_DO, S_SB, S_SE, S_OPT };
 
@@ -302,7 +329,7 @@ static int short_decode (long idx, unsigned char *out) {
   for (l = 1; l <= Lmax; l++) { p *= nalpha; if (idx < p) break; idx -= p; }
   for (int i = l - 1; i >= 0; i--) {
     int d = (int) (idx % nalpha); idx /= nalpha;
-    int s = nalpha == 8 ? alpha8[d] : nalpha == 10 ? alpha10[d] : d;
+    int s = nalpha == 4 ? alpha4[d] : nalpha == 8 ? alpha8[d] : nalpha == 10 ? alpha10[d] : d;
     out[i] = sym_byte (s, i);
   }
   return l;
@@ -450,6 +477,57 @@ static void elem_short (long idx) {
       if (line_start) metamorphic (s, n, i, 1, "C13:edit:backspace-at-line-start-not-ignored", "BS/DEL at the start of a line must have no effect");
       else if (i >= 1 && isd[i - 1] == 1 && (s[i - 1] == 'a' || s[i - 1] == 'b' || s[i - 1] == 0xe4) && !(i >= 2 && s[i - 2] == '\r'))
         metamorphic (s, n, i - 1, 2, "C13:edit:backspace-does-not-erase-previous-char", "x BS must equal the stream without both");
+    }
+  }
+}
+
+/* ------------------------------------------------------------------ family: mudlib behaviour on line k x all segmentations */
+static const int via_of_port[4][3] = { { 0, 1, 2 }, { 0, -1, -1 }, { 0, -1, -1 }, { 0, 1, 2 } };
+static int KMAX = 3;
+static long behave_total (void) { return short_total () * 3 * KMAX * 3; }
+static void elem_behave (long idx) {
+  int via_i = (int) (idx % 3); idx /= 3;
+  int k = (int) (idx % KMAX); idx /= KMAX;
+  int act = 1 + (int) (idx % 3); idx /= 3;
+  int via = via_of_port[port][via_i];
+  if (via < 0) return;
+  if (act == 3 && via == 1) return;                    /* a pending input_to() stays bound to the old object: not a meaningful combination */
+  if (port == PT_BINARY && act == 2) return;           /* one buffer per read: which bytes arrive before the k-th buffer depends on the reads by definition */
+  unsigned char s[16]; int n = short_decode (idx, s);
+  int seg[16], one[1] = { n };
+  safe_apply_master_ob ("clear_mlog", 0); safe_apply_master_ob ("clear_errors", 0);
+  static plan_t p; p = (plan_t) { port, M_DRAIN, 0xA5, 0, s, n, one, 1, 0, act, k, via };
+  run (&p, &ref);
+  if (!ref.connected) { failp ("C13:harness:no-connection", "connection was not established"); return; }
+  if (ref.ucount <= k) return;                          /* the stream has no line k: the scripted behaviour never happens */
+  vx_count (3, 1);
+  if (vx_replaying ()) { char d[360]; describe_plan (d, sizeof d); vx_obs ("ref %s act=%d k=%d via=%d -> %s", d, act, k, via, show_log (ref.u, ref.ulen)); }
+  static const char *act_name[] = { "", "error", "destruct", "exec" }, *via_name[] = { "process_input", "input_to", "command" };
+  /* explicit: on the line-mode port every complete line is delivered exactly once, in order (up to line k if the object destructs itself) */
+  if (port == PT_ASCII) {
+    unsigned char E[96]; int ne = 0, st = 0, cnt = 0;
+    for (int i = 0; i < n; i++) if (s[i] == '\n') { int l = i - st; if (act == 2 && cnt > k) break; E[ne++] = (unsigned char) l; E[ne++] = 0; memcpy (E + ne, s + st, (size_t) l); ne += l; st = i + 1; cnt++; }
+    if (ref.ulen != ne || memcmp (ref.u, E, (size_t) ne)) {
+      P = &p;
+      failp ("C13:ascii:lines-wrong-when-process_input-misbehaves", "process_input() does '%s' on line %d: delivered %s, the lines sent are %s", act_name[act], k, show_log (ref.u, ref.ulen), show_log (E, ne));
+    }
+  }
+  for (unsigned mask = 1; mask < (1u << (n - 1)); mask++) {
+    int ns = 0, len = 1;
+    for (int i = 0; i < n - 1; i++) { if (mask & (1u << i)) { seg[ns++] = len; len = 1; } else len++; }
+    seg[ns++] = len;
+    for (int mode = 0; mode < 3; mode++) {
+      static plan_t q; q = (plan_t) { port, mode, 0xA5, 0, s, n, seg, ns, 0, act, k, via };
+      run (&q, &got);
+      vx_count (4, 1);
+      if (port == PT_CONSOLE) continue;                 /* console: memory safety and buffer invariants only */
+      if (got.dropped && !ref.dropped) failp ("C13:connection-dropped", "driver closed the connection while processing the stream");
+      int same = same_u (&ref, &got);
+      if (port == PT_BINARY) { unsigned char fa[64], fb[64]; int la = flat (&ref, fa), lb = flat (&got, fb); same = la == lb && !memcmp (fa, fb, (size_t) la); }
+      if (!same) {
+        char key[100]; snprintf (key, sizeof key, "C13:%s:lines-depend-on-read-boundaries-when-%s-%ss", port_name[port], via_name[via], act_name[act]);
+        failp (key, "on line %d the %s does '%s': unsegmented delivery %s, this delivery %s", k, via_name[via], act_name[act], show_log (ref.u, ref.ulen), show_log (got.u, got.ulen));
+      }
     }
   }
 }
@@ -647,7 +725,11 @@ static void elem_sb (long idx) {
 
 static void describe (long idx, char *buf, size_t len) {
   const char *fam = vx_opt ("family", "short");
-  if (!strcmp (fam, "short") || !strcmp (fam, "single") || !strcmp (fam, "eof")) {
+  if (!strcmp (fam, "behave")) {
+    long i = idx; int via_i = (int) (i % 3); i /= 3; int k = (int) (i % KMAX); i /= KMAX; int act = 1 + (int) (i % 3); i /= 3;
+    unsigned char s[16]; int n = short_decode (i, s); size_t o = (size_t) snprintf (buf, len, "%s act=%d line=%d via=%d stream ", port_name[port], act, k, via_of_port[port][via_i]);
+    for (int j = 0; j < n; j++) o += (size_t) snprintf (buf + o, len - o, "%02x ", s[j]);
+  } else if (!strcmp (fam, "short") || !strcmp (fam, "single") || !strcmp (fam, "eof")) {
     unsigned char s[16]; int n = short_decode (idx, s); size_t o = (size_t) snprintf (buf, len, "%s stream ", port_name[port]);
     for (int i = 0; i < n; i++) o += (size_t) snprintf (buf + o, len - o, "%02x ", s[i]);
   } else if (!strcmp (fam, "long")) snprintf (buf, len, "%s long line n=%d chunk=%d MAX_TEXT=%d", port_name[port], nvals[idx / n_chunks], chunk_sizes[idx % n_chunks], MT);
@@ -673,12 +755,17 @@ int main (int argc, char **argv) {
   const char *fam = vx_opt ("family", "short");
   Lmax = (int) vx_opt_long ("L", 4);
   nalpha = (int) vx_opt_long ("alpha", NSYM);
-  if (nalpha != 8 && nalpha != 10) nalpha = NSYM;
+  if (nalpha != 4 && nalpha != 8 && nalpha != 10) nalpha = NSYM;
   init_chunks ();
   vx_count_name (0, "connections"); vx_count_name (1, "reads"); vx_count_name (2, "commands_delivered");
   vx_count_name (3, "nontrivial"); vx_count_name (4, "deliveries_compared"); vx_count_name (5, "long_lines_delivered_whole");
   if (!strcmp (fam, "eof")) { eof_by_read = 1; fam = "short"; }
-  if (!strcmp (fam, "short") || !strcmp (fam, "single")) {
+  if (!strcmp (fam, "behave")) {
+    if (nalpha == NSYM) nalpha = 4;
+    KMAX = (int) vx_opt_long ("kmax", 3);
+    hx_load ("/c13/logd", 0);
+    vx_set_enum (behave_total (), elem_behave, describe);
+  } else if (!strcmp (fam, "short") || !strcmp (fam, "single")) {
     single = !strcmp (fam, "single");
     if (single) { push_constant_string ("c13_single"); push_number (1); safe_apply_master_ob ("set_policy", 2); }
     vx_set_enum (short_total (), elem_short, describe);
